@@ -105,9 +105,54 @@ def cases(draw):
     return c
 
 
+def _svc_recurring(data, cfg):
+    from vf import service
+
+    return [{"op": op, "teams": t} for t in service.lineups(data, cfg, k=8) for op in ("predict_rank", "predict_draw")]
+
+
+def _svc_judge(spec, out, ctx):
+    from vf import service
+
+    kind = spec["cfg"]["kind"]
+    rec = spec["recurring"]
+    for when in ("first", "last"):
+        for k in range(0, len(rec), 2):
+            teams = rec[k]["teams"]
+            n = len(teams)
+            rk, dr = out[when][k], out[when][k + 1]
+            where = f"{kind}: {n} teams ({'first calls of the process' if when == 'first' else 'after ' + str(out['fillers']) + ' other calls through the same model'})"
+            if service.raised(rk) or service.raised(dr):
+                raise Violation(f"service:{when}:raised", f"{where}: predict_rank / predict_draw raised: {rk!r} / {dr!r}"[:600])
+            probs = [p for _, p in rk]
+            ranks = [r for r, _ in rk]
+            if len(rk) != n or any(not (isinstance(p, (int, float)) and -1e-12 <= p <= 1 + 1e-12) for p in probs) or any(not (isinstance(r, int) and 1 <= r <= n) for r in ranks):
+                raise Violation(f"service:{when}:shape-or-range", f"{where}: predict_rank = {rk!r}")
+            for a in range(n):
+                for b in range(n):
+                    if probs[a] > probs[b] and not ranks[a] < ranks[b]:
+                        raise Violation(f"service:{when}:rank-order", f"{where}: p[{a}]={probs[a]!r} > p[{b}]={probs[b]!r} but ranks {ranks[a]}, {ranks[b]}")
+                    if probs[a] == probs[b] and ranks[a] != ranks[b]:
+                        raise Violation(f"service:{when}:rank-ties", f"{where}: equal probabilities {probs[a]!r} with ranks {ranks[a]}, {ranks[b]}")
+            if n >= 3 and abs(sum(probs) + dr - 1.0) > n * n * 1e-13:
+                raise Violation(f"service:{when}:complement", f"{where}: sum of predict_rank probabilities {sum(probs)!r} + predict_draw {dr!r} != 1")
+
+
+def _svc(i):
+    from vf import service
+
+    if not hasattr(_svc, "fns"):
+        _svc.fns = service.make_clause_functions(_svc_recurring, _svc_judge)
+    return _svc.fns[i]
+
+
 PROPERTY = Property(
     pid="C11",
-    clauses=[Clause(name="rank-consistency", strategy=cases(), check=check_c11, quick=8000, thorough=150000,
+    clauses=[
+        Clause(name="long-running-service", kind="custom", custom=lambda *a: _svc(0)(*a), check=lambda *a: _svc(1)(*a), quick=16, thorough=64, shards_quick=16, shards_thorough=16,
+               rule="one fresh child interpreter and ONE long-lived model per case: predict_rank and predict_draw on 11 recurring line-ups first, then 9 000 (quick) / "
+                    "70 000 (thorough) other calls with ever new line-ups, then the recurring calls again: ranks consistent with probabilities, complement identity "
+                    "with predict_draw (>= 3 teams) - early and late; non-trivial = at least 4 200 calls in between"),Clause(name="rank-consistency", strategy=cases(), check=check_c11, quick=8000, thorough=150000,
                     rule="one list of teams (exact copies planted in adjacent / non-adjacent positions, 2- and 3-way; 1-ulp-apart teams); non-trivial = >= 3 teams with "
                          "an exact probability tie or >= 3 distinct probabilities")],
     rule="generated teams; oracle on one output: length n in input order, probabilities in [0,1], ranks ints in 1..n, strictly larger probability <=> strictly "
